@@ -151,14 +151,14 @@ def body(m, cfg):
         m.require(tuple(r.shape) == bs, "result has the broadcast shape", key=f"shape:{tag}")
         ex, sc = _expect_binary(m, op, av, bv, fa, fb, ia, ib)
         dim = {"add": da, "sub": da, "mul": U.dim_mul(da, db), "div": U.dim_mul(da, U.dim_inv(db))}[op]
-        _check_result(m, r, ex, dim, tag, sc)
+        _check_result(m, r, ex, dim, tag, sc, tol=C.tol_for(cfg["ua"], cfg["ub"]))
         m.require(C.unchanged(m, a, snap_a) and (snap_b is None or C.unchanged(m, b, snap_b)),
                   "operands unchanged", key=f"operands-changed:{tag}")
         return
 
     if op == "neg":
         r = -a
-        _check_result(m, r, [-(m.t(x) * fa) for x in av], da, tag)
+        _check_result(m, r, [-(m.t(x) * fa) for x in av], da, tag, tol=C.tol_for(cfg["ua"]))
     elif op == "pow":
         k = cfg["k"]
         tag += f":k={k}"
@@ -189,7 +189,7 @@ def body(m, cfg):
                 for _ in range(abs(kk) - 1):
                     y = y * x
                 return y if kk > 0 else 1 / y
-            _check_result(m, r, [p(x) for x in av], dim, tag)
+            _check_result(m, r, [p(x) for x in av], dim, tag, tol=C.tol_for(cfg["ua"]))
     elif op in ("rmul", "rdiv"):
         lk = cfg["lhs"]
         tag += f":{lk}"
@@ -211,7 +211,7 @@ def body(m, cfg):
             dim = da
         m.require(isinstance(r, Array), "result is an Array", key=f"type:{tag}")
         if isinstance(r, Array):
-            _check_result(m, r, ex, dim, tag)
+            _check_result(m, r, ex, dim, tag, tol=C.tol_for(cfg["ua"]))
     m.require(C.unchanged(m, a, snap_a), "operand unchanged", key=f"operands-changed:{tag}")
 
 
@@ -227,7 +227,7 @@ def _fd_result(m, r, dim, tag):
     return fr, dr
 
 
-def _check_result(m, r, ex, dim, tag, scales=None):
+def _check_result(m, r, ex, dim, tag, scales=None, tol=None):
     fr, dr = _fd_result(m, r, dim, tag)
     if fr is None:
         return
@@ -237,5 +237,5 @@ def _check_result(m, r, ex, dim, tag, scales=None):
         m.fail("result size", key=f"shape:{tag}")
         return
     m.check("result equals the operation on the physical quantities",
-            m.And([m.close(m.t(y) * fr, e, scale=(scales[i] if scales else None))
+            m.And([m.close(m.t(y) * fr, e, tol=tol, scale=(scales[i] if scales else None))
                    for i, (y, e) in enumerate(zip(rv, ex))]), key=f"value:{tag}")
